@@ -116,17 +116,17 @@ func (c *wsConn) nextMessage() {
 	c.resetReadDeadline()
 	msgType, r, err := c.conn.NextReader()
 	if err != nil {
-		vhook("reader.err", c)
 		c.errLk.Lock()
 		c.incomingErr = err
+		vhook("reader.err", c)
 		c.errLk.Unlock()
 		close(c.incoming)
 		return
 	}
 	if msgType != websocket.BinaryMessage && msgType != websocket.TextMessage {
-		vhook("reader.err", c)
 		c.errLk.Lock()
 		c.incomingErr = errors.New("unsupported message type")
+		vhook("reader.err", c)
 		c.errLk.Unlock()
 		close(c.incoming)
 		return
@@ -466,8 +466,8 @@ func (c *wsConn) handleChanClose(frame frame) {
 func (c *wsConn) handleResponse(frame frame) {
 	c.inflightLk.Lock()
 	req, ok := c.inflight[frame.ID]
-	c.inflightLk.Unlock()
 	vhook("fe.resp.lookup", c, "id", frame.ID, "found", ok)
+	c.inflightLk.Unlock()
 	if !ok {
 		log.Error("client got unknown ID in response")
 		return
@@ -504,8 +504,8 @@ func (c *wsConn) handleResponse(frame frame) {
 	if cur, ok := c.inflight[frame.ID]; ok && cur.ready == req.ready {
 		delete(c.inflight, frame.ID)
 	}
-	c.inflightLk.Unlock()
 	vhook("fe.resp.delete", c, "id", frame.ID)
+	c.inflightLk.Unlock()
 }
 
 func (c *wsConn) handleCall(ctx context.Context, frame frame) {
@@ -588,7 +588,9 @@ func (c *wsConn) closeInFlight() {
 				Code:    eTempWSError,
 			},
 		}:
+			vhook("cif.sent", c, "id", id, "a", req.ready, "ok", true)
 		default:
+			vhook("cif.sent", c, "id", id, "a", req.ready, "ok", false)
 			// req.ready (capacity 1) already holds the response to this
 			// request: it was delivered just before the connection dropped.
 			// Blocking here, with inflightLk held, can deadlock with the frame
@@ -721,11 +723,11 @@ func (c *wsConn) tryReconnect(ctx context.Context) bool {
 		c.conn = conn
 		c.errLk.Lock()
 		c.incomingErr = nil
+		vhook("rc.swap", c)
 		c.errLk.Unlock()
 
 		c.stopPings = c.setupPings()
 
-		vhook("rc.swap", c)
 		vhook("w.end", c, "site", "swap")
 		c.writeLk.Unlock()
 
@@ -876,6 +878,7 @@ func (c *wsConn) handleWsConn(ctx context.Context) {
 			// being registered and written to the dead socket
 			c.errLk.Lock()
 			c.incomingErr = rerr
+			vhook("main.markbad", c)
 			c.errLk.Unlock()
 
 			log.Debugw("websocket error", "error", rerr, "lastAction", action, "time", time.Since(start))
@@ -895,6 +898,7 @@ func (c *wsConn) handleWsConn(ctx context.Context) {
 			if req.req.ID != nil { // non-notification
 				c.errLk.Lock()
 				hasErr := c.incomingErr != nil
+				vhook("main.errcheck", c, "a", req.ready, "err", hasErr)
 				c.errLk.Unlock()
 				if hasErr { // No conn?, immediate fail
 					vhook("main.failfast", c, "a", req.ready, "id", req.req.ID)
